@@ -166,7 +166,8 @@ def run_fuzz(spec):
   if os.path.exists(cspec['stats']):
     with open(cspec['stats']) as f:
       stats = json.load(f)
-  out = {'evaluations': 0, 'nontrivial_hashes': [], 'classes': {}, 'samples': [], 'excluded_known': {}, 'inconclusive': 0,
+  out = {'evaluations': 0, 'nontrivial_hashes': [], 'classes': {}, 'samples': [], 'excluded_known': stats.get('excluded_known', {}),
+         'inconclusive': 0,
          'exhaustive': None, 'extra': {'fuzz_execs': stats.get('execs', 0), 'fuzz_cases_decoded': stats.get('decoded', 0),
                                        'fuzz_nontrivial_cases': stats.get('nontrivial', 0)}}
   m = re.findall(r'cov: (\d+) ft: (\d+)', err)
